@@ -577,8 +577,11 @@ class FnTranslator:
         self.vars = {}                          # python name -> type (params + locals), insertion = field order
         self.params = []                        # lean parameter list: (lean name, type), call order
         self.self_name = None
+        self.item_alias = {}                    # heap mode: local -> (dict attribute, key variable): see _find_item_aliases
         self._collect_params()
         self._strip_guards()
+        if self.heap:
+            self._find_item_aliases()
         self._infer_types()
 
     # -- names ---------------------------------------------------------------------------
@@ -1038,6 +1041,7 @@ class FnTranslator:
                 m = self._mutation(n)
                 if m is not None:
                     mutated.add(m[0])
+        mutated -= set(self.item_alias)          # heap mode: item aliases write the dict entry they name
         for v in mutated:
             if v in self.spec['params'] or v not in self.vars:
                 raise Unsupported(self.f, 'in-place mutation of parameter / unknown %s' % v)
@@ -1091,7 +1095,9 @@ class FnTranslator:
             if len(st.targets) != 1:
                 raise Unsupported(st, 'chained assignment')
             if self.heap:
-                hs = self._heap_stmt(st, rest, k, ctx, ex)
+                hs = self._alias_stmt(st, rest, k, ctx, ex) if self.item_alias else None
+                if hs is None:
+                    hs = self._heap_stmt(st, rest, k, ctx, ex)
                 if hs is not None:
                     return hs
             callee = self._method_call(st.value, ctx)
@@ -1132,7 +1138,9 @@ class FnTranslator:
                 and self.dict_view(st.targets[0].value) is not None:
             return self._view_store(self.dict_view(st.targets[0].value), st.targets[0], None, st, rest, k, ctx, ex)
         if self.heap and isinstance(st, ast.Expr) and isinstance(st.value, ast.Call):
-            hs = self._heap_expr_stmt(st, rest, k, ctx, ex)
+            hs = self._alias_stmt(st, rest, k, ctx, ex) if self.item_alias else None
+            if hs is None:
+                hs = self._heap_expr_stmt(st, rest, k, ctx, ex)
             if hs is not None:
                 return hs
         if isinstance(st, ast.Expr) and isinstance(st.value, ast.Call) and isinstance(st.value.func, ast.Name) \
@@ -1361,7 +1369,14 @@ class FnTranslator:
         if st.finalbody or not st.handlers:
             raise Unsupported(st, 'try ... finally')
         inner = self._forget(ctx, [st])
-        kk, prefix = self._share(self.block(rest, k, inner))
+        after = inner
+        if self.heap and terminates(st.body) and not st.orelse and len(st.handlers) == 1:
+            # heap mode: the statements after the `try` are reached only by falling out of the handler
+            nn = inner.get('nn', frozenset())
+            for hs in st.handlers[0].body:
+                nn = flow_after_if(hs, nn) if isinstance(hs, ast.If) else nn - assigned_names([hs])
+            after = self._with_nn(inner, nn)
+        kk, prefix = self._share(self.block(rest, k, after))
         arms = []
         for hd in st.handlers:
             if hd.name is not None or not isinstance(hd.type, ast.Name) or hd.type.id not in EXC_NAMES:
@@ -1422,6 +1437,7 @@ class FnTranslator:
         return self._wrap(ex, self._let_update([('self.' + attr, new)]) + '\n' + self.block(rest, k, ctx), ctx)
 
     RAW_DICT = ('__setitem__', '__delitem__', 'clear', 'pop', 'popitem')
+    RAW_DICT_HEAP = ('setdefault', '__contains__', '__getitem__')       # heap mode (item aliases, membership)
 
     def _raw_dict(self, node):
         """`dict.<m>(X, args)` with X = `self` / the peer: the dict's own operation, bypassing the class's
@@ -1429,7 +1445,8 @@ class FnTranslator:
         if isinstance(node, ast.Call) and isinstance(node.func, ast.Attribute) \
                 and isinstance(node.func.value, ast.Name) and node.func.value.id == 'dict' \
                 and 'dict' not in self.vars and node.args and self.dict_view(node.args[0]) is not None:
-            if node.func.attr not in self.RAW_DICT or node.keywords:
+            if (node.func.attr not in self.RAW_DICT and not (self.heap and node.func.attr in self.RAW_DICT_HEAP)) \
+                    or node.keywords:
                 raise Unsupported(node, 'dict.%s' % node.func.attr)
             return node.func.attr, self.dict_view(node.args[0])[0], node.args[1:]
         return None
@@ -1453,6 +1470,11 @@ class FnTranslator:
         if m == 'pop' and len(args) == 1:
             kx = ex.key_term(args[0], t[1])
             v = ex.partial('PyRt.Dict.pop? %s %s' % (d, kx), node)
+            return v + '.1', t[2], [('self.' + attr, v + '.2')]
+        if m == 'pop' and len(args) == 2 and self.heap:
+            kx = ex.key_term(args[0], t[1])
+            dx, _ = ex.expr(args[1], t[2])
+            v = ex.partial('(Except.ok (PyRt.Dict.popD %s %s %s) : Except PyExc _)' % (d, kx, dx), node)   # cannot raise
             return v + '.1', t[2], [('self.' + attr, v + '.2')]
         if m == 'popitem' and not args:
             v = ex.partial('PyRt.Dict.popitem? %s' % d, node)
@@ -1482,7 +1504,7 @@ class FnTranslator:
         for e in node.elts:
             if isinstance(e, (ast.List, ast.Starred)):
                 raise Unsupported(node, 'a nested list display')
-            pe, pt = ex.expr(e)
+            pe, pt = ex.expr(e, VAL)
             parts.append(box(pe, pt, node))
         return '([%s] : List (%s))' % (', '.join(parts), show_type(VAL))
 
@@ -1542,6 +1564,186 @@ class FnTranslator:
         ctx2 = self._forget(ctx, [st])
         return self._wrap(ex, self._let_update(upd) + '\n' + self.block(rest, k, ctx2), ctx)
 
+    # -- heap mode: ITEM ALIASES -----------------------------------------------------------------------
+    # A local bound ONCE by `x = self.<D>[k]`, `x = self.<D>.setdefault(k, [])`, `x = dict.setdefault(self, k, [])` or
+    # `x = dict.__getitem__(self, k)` (D a declared `Dict κ (List T)`, k a variable that is never rebound) names the
+    # list stored under k: every later `x` reads `D[k]` at that moment, `x.append(e)` / `x.extend(l)` / `y = x.pop()`
+    # write it back.  That is what Python does as long as the entry for k is still the same list object, which holds
+    # when nothing between the binding and the last use of `x` deletes or replaces entries of D (checked: no such
+    # statement, no call of a method that changes D) - otherwise the function is refused.
+    def _alias_binding(self, st):
+        if not (isinstance(st, ast.Assign) and len(st.targets) == 1 and isinstance(st.targets[0], ast.Name)):
+            return None
+        v = st.value
+        attr, key, form = None, None, None
+        if isinstance(v, ast.Subscript) and not isinstance(v.slice, ast.Slice) and self.state_attr(v.value) is not None:
+            attr, key, form = self.state_attr(v.value), v.slice, 'get'
+        elif isinstance(v, ast.Call) and isinstance(v.func, ast.Attribute) and v.func.attr == 'setdefault' \
+                and self.state_attr(v.func.value) is not None and len(v.args) == 2 and not v.keywords \
+                and isinstance(v.args[1], ast.List) and not v.args[1].elts:
+            attr, key, form = self.state_attr(v.func.value), v.args[0], 'setdefault'
+        elif isinstance(v, ast.Call) and isinstance(v.func, ast.Attribute) and isinstance(v.func.value, ast.Name) \
+                and v.func.value.id == 'dict' and v.args and self.dict_view(v.args[0]) is not None \
+                and not self.dict_view(v.args[0])[1] and not v.keywords:
+            if v.func.attr == 'setdefault' and len(v.args) == 3 and isinstance(v.args[2], ast.List) and not v.args[2].elts:
+                attr, key, form = self.dict_view(v.args[0])[0], v.args[1], 'setdefault'
+            elif v.func.attr == '__getitem__' and len(v.args) == 2:
+                attr, key, form = self.dict_view(v.args[0])[0], v.args[1], 'get'
+        if attr is None or not isinstance(key, ast.Name):
+            return None
+        t = self.cls_state[attr]
+        if t[0] != 'Dict' or t[2][0] != 'List':
+            return None
+        return st.targets[0].id, attr, key.id, form
+
+    def _attr_touched(self, node, attr, seen=()):
+        """could executing `node` delete / replace an entry of the dict attribute `attr` (or rebind it)?"""
+        base = self.cls.get('dict_base')
+        for n in ast.walk(node):
+            tg = []
+            if isinstance(n, ast.Assign):
+                tg = n.targets
+            elif isinstance(n, (ast.AugAssign, ast.AnnAssign)):
+                tg = [n.target]
+            elif isinstance(n, ast.Delete):
+                tg = n.targets
+            for t in tg:
+                for e in (t.elts if isinstance(t, (ast.Tuple, ast.List)) else [t]):
+                    r = e
+                    while isinstance(r, ast.Subscript):
+                        r = r.value
+                    if self.state_attr(r) == attr if isinstance(r, ast.Attribute) else \
+                            (isinstance(r, ast.Name) and r.id == self.self_name and attr == base and e is not r):
+                        return True
+            if isinstance(n, ast.Call) and isinstance(n.func, ast.Attribute):
+                f = n.func
+                if isinstance(f.value, ast.Attribute) and self.state_attr(f.value) == attr \
+                        and f.attr in ('pop', 'clear', 'popitem', 'update', '__setitem__', '__delitem__'):
+                    return True
+                if isinstance(f.value, ast.Name) and f.value.id == 'dict' and attr == base \
+                        and f.attr in ('pop', 'clear', 'popitem', 'update', '__setitem__', '__delitem__'):
+                    return True
+                if isinstance(f.value, ast.Name) and f.value.id == self.self_name:
+                    for sp in method_specs(self.cls, f.attr):
+                        if sp['lean_name'] in seen:
+                            continue
+                        callee = _find_function(self.tree, sp['qualname'])
+                        sub = FnTranslator.__new__(FnTranslator)
+                        sub.cls, sub.tree, sub.self_name = self.cls, self.tree, callee.args.args[0].arg
+                        sub.cls_state = self.cls_state
+                        if sub._attr_touched_raw(callee, attr, seen + (sp['lean_name'],)):
+                            return True
+                    if not method_specs(self.cls, f.attr):
+                        return True              # an untranslated method: unknown
+        return False
+
+    def _attr_touched_raw(self, fdef, attr, seen):
+        """the same for a callee's ORIGINAL source (before its pre-pass): `super()` counts as the dict the object is,
+        local aliases of the attribute count as the attribute"""
+        base = self.cls.get('dict_base')
+        names = {n.targets[0].id for n in ast.walk(fdef) if isinstance(n, ast.Assign) and len(n.targets) == 1
+                 and isinstance(n.targets[0], ast.Name) and isinstance(n.value, ast.Attribute)
+                 and isinstance(n.value.value, ast.Name) and n.value.value.id == self.self_name and n.value.attr == attr}
+        for n in ast.walk(fdef):
+            if isinstance(n, ast.Call) and isinstance(n.func, ast.Attribute):
+                f = n.func
+                root = f.value
+                is_super = (isinstance(root, ast.Call) and isinstance(root.func, ast.Name) and root.func.id == 'super') \
+                    or (isinstance(root, ast.Name) and root.id not in (self.self_name,) and any(
+                        isinstance(m, ast.Assign) and isinstance(m.value, ast.Call) and isinstance(m.value.func, ast.Name)
+                        and m.value.func.id == 'super' and any(isinstance(t, ast.Name) and t.id == root.id for t in m.targets)
+                        for m in ast.walk(fdef)))
+                if is_super and attr == base and f.attr in ('pop', 'clear', 'popitem', 'update', '__setitem__', '__delitem__'):
+                    return True
+                if isinstance(root, ast.Name) and root.id in names and f.attr in ('pop', 'clear', 'popitem', 'update'):
+                    return True
+        return self._attr_touched(fdef, attr, seen)
+
+    def _find_item_aliases(self):
+        stores = {}
+        for n in ast.walk(self.f):
+            if isinstance(n, ast.Name) and isinstance(n.ctx, (ast.Store, ast.Del)):
+                stores[n.id] = stores.get(n.id, 0) + 1
+
+        def pos(n):
+            return (n.lineno, n.col_offset)
+        body = ast.Module(body=self.body, type_ignores=[])
+        for st in ast.walk(body):
+            b = self._alias_binding(st)
+            if b is None:
+                continue
+            x, attr, key, form = b
+            if stores.get(x) != 1 or x in self.spec['params'] or stores.get(key, 0) > (0 if key in self.spec['params'] else 1):
+                continue
+            uses = [n for n in ast.walk(body) if isinstance(n, ast.Name) and n.id == x and isinstance(n.ctx, ast.Load)]
+            if any(pos(n) <= pos(st) for n in uses):
+                raise Unsupported(st, 'item alias %s used before / in its binding' % x)
+            end = max([pos(n) for n in uses], default=pos(st))
+            for lp in ast.walk(body):          # a use inside a loop: the whole loop is in the region
+                if isinstance(lp, (ast.While, ast.For)) and any(n in list(ast.walk(lp)) for n in uses):
+                    end = max(end, (lp.end_lineno, lp.end_col_offset))
+            # every use must be one of: x.append(e) / x.extend(l) / x.pop() / x[i] / truthiness (a bare read)
+            for other in ast.walk(body):
+                if other is st:
+                    continue
+                if isinstance(other, (ast.stmt,)) and pos(st) < pos(other) <= end and not isinstance(
+                        other, (ast.If, ast.While, ast.For, ast.Try)):
+                    probe = other
+                    # the statement's own write through the alias is fine; anything else touching the dict is not
+                    if self._attr_touched(probe, attr):
+                        raise Unsupported(other, 'the dict entry behind the item alias %s may be replaced here' % x)
+            self.item_alias[x] = (attr, key, form)
+        return
+
+    def _alias_read(self, name, ex, node):
+        """the list an item alias names, read NOW: `D[k]`"""
+        attr, key, _ = self.item_alias[name]
+        t = self.cls_state[attr]
+        kx, _ = ex.expr(ast.copy_location(ast.Name(id=key, ctx=ast.Load()), node), t[1])
+        return ex.partial('PyRt.Dict.get? %s %s' % (self.view_term(attr), kx), node), t[2], kx
+
+    def _alias_stmt(self, st, rest, k, ctx, ex):
+        """statements about item aliases: the binding itself, `x.append(e)`, `x.extend(l)`, `y = x.pop()`"""
+        upd = None
+        if isinstance(st, ast.Assign) and self._alias_binding(st) is not None \
+                and self._alias_binding(st)[0] in self.item_alias:
+            x, attr, key, form = self._alias_binding(st)
+            t = self.cls_state[attr]
+            kx, _ = ex.expr(ast.copy_location(ast.Name(id=key, ctx=ast.Load()), st), t[1])
+            d = self.view_term(attr)
+            if form == 'get':
+                ex.partial('PyRt.Dict.get? %s %s' % (d, kx), st)          # evaluated for its KeyError
+                upd = []
+            else:
+                upd = [('self.' + attr, '(PyRt.Dict.setdefault %s %s ([] : %s)).2' % (d, kx, show_type(t[2])))]
+        call = st.value if isinstance(st, (ast.Expr, ast.Assign)) and isinstance(st.value, ast.Call) else None
+        if upd is None and call is not None and isinstance(call.func, ast.Attribute) \
+                and isinstance(call.func.value, ast.Name) and call.func.value.id in self.item_alias \
+                and not call.keywords:
+            x = call.func.value.id
+            attr = self.item_alias[x][0]
+            t = self.cls_state[attr]
+            m = call.func.attr
+            if isinstance(st, ast.Expr) and m in ('append', 'extend') and len(call.args) == 1:
+                a, _ = ex.expr(call.args[0], t[2][1] if m == 'append' else t[2])
+                cur, _, kx = self._alias_read(x, ex, st)
+                new = 'PyRt.append %s %s' % (cur, self._atom(a)) if m == 'append' else '%s ++ %s' % (cur, self._atom(a))
+                upd = [('self.' + attr, '(PyRt.Dict.set %s %s (%s))' % (self.view_term(attr), kx, new))]
+            elif isinstance(st, ast.Assign) and m == 'pop' and not call.args and isinstance(st.targets[0], ast.Name):
+                y = st.targets[0].id
+                if self.vars.get(y) != t[2][1]:
+                    raise Unsupported(st, 'type of the popped item')
+                cur, _, kx = self._alias_read(x, ex, st)
+                v = ex.partial('PyRt.popLast? %s' % cur, st)
+                upd = [(y, v + '.1'), ('self.' + attr, '(PyRt.Dict.set %s %s %s.2)' % (self.view_term(attr), kx, v))]
+            else:
+                raise Unsupported(st, 'this use of the item alias %s' % x)
+        if upd is None:
+            return None
+        ctx2 = self._forget(ctx, [st]) if isinstance(st, ast.Assign) else ctx
+        head = (self._let_update(upd) + '\n') if upd else ''
+        return self._wrap(ex, head + self.block(rest, k, ctx2), ctx)
+
     def _counter_next(self, node):
         """`next(self.<a>)` with `<a>` declared `Counter` -> the attribute, else None"""
         if isinstance(node, ast.Call) and isinstance(node.func, ast.Name) and node.func.id == 'next' \
@@ -1568,6 +1770,13 @@ class FnTranslator:
     def _heap_expr_stmt(self, st, rest, k, ctx, ex):
         """expression statements of heap mode: the backend's push / pop"""
         kind = self._backend_call(st.value)
+        call = st.value
+        if kind is None and isinstance(call.func, ast.Attribute) and call.func.attr == 'clear' and not call.args \
+                and not call.keywords and self.state_attr(call.func.value) is not None \
+                and self.cls_state[self.state_attr(call.func.value)][0] == 'Dict':
+            a = self.state_attr(call.func.value)                 # self.<dict attribute>.clear()
+            upd = [('self.' + a, '([] : %s)' % show_type(self.cls_state[a]))]
+            return self._wrap(ex, self._let_update(upd) + '\n' + self.block(rest, k, ctx), ctx)
         if kind is None:
             return None
         ba = self.cls['backend']['attr']
@@ -2089,6 +2298,11 @@ class ExprTr:
     def var(self, name, node):
         if name in self.local:
             return self.local[name]
+        if self.env is None and name in self.fn.item_alias:
+            if self.infer_only:
+                return 'r0', self.fn.cls_state[self.fn.item_alias[name][0]][2]
+            e, t, _ = self.fn._alias_read(name, self, node)      # heap mode: an item alias reads the dict entry NOW
+            return e, t
         if name in self.fn.sentinels and self.env is None and name not in self.fn.vars:
             return 'PyHeap.Val.sentinel', SENTINEL       # heap mode: coerced to `none` of an Option where one is expected
         if self.env is not None:
@@ -2508,12 +2722,18 @@ class ExprTr:
             return '(PyRt.Dict.len %s)' % base, INT
         if m == 'pop' and len(a) == 1 and self.fn.heap and self.infer_only:
             return 'r0', bt[2]                  # heap mode: `x = self.<dict>.pop(k)`, translated at statement level
+        if m == 'setdefault' and len(a) == 2 and self.fn.heap and self.infer_only:
+            return 'r0', bt[2]                  # heap mode: an item-alias binding
         raise Unsupported(node, 'dict method %s' % m)
 
     def _call(self, node: ast.Call, expected):
         fn = self.fn
         if fn.ext and isinstance(node.func, ast.Name) and node.func.id.startswith('%'):
             return importlib.import_module(fn.ext).translate_op(self, node, expected)    # spec-declared operation
+        if self.env is None and fn.heap and self.infer_only and isinstance(node.func, ast.Attribute) \
+                and isinstance(node.func.value, ast.Name) and node.func.value.id in fn.item_alias \
+                and node.func.attr == 'pop' and not node.args:
+            return 'r0', fn.cls_state[fn.item_alias[node.func.value.id][0]][2][1]
         if self.env is None and fn.heap and (fn._counter_next(node) is not None or fn._backend_call(node)):
             # heap mode: `next(self.<counter>)` / the backend's pop: translated at statement level only
             if not self.infer_only:
@@ -2524,8 +2744,13 @@ class ExprTr:
         if self.env is None and fn.cls is not None and fn._raw_dict(node) is not None:
             m, attr, _ = fn._raw_dict(node)
             t = fn.cls_state[attr]
+            if m == '__contains__' and len(node.args) == 2 and fn.heap:
+                kx = self.key_term(node.args[1], t[1]) if not self.infer_only else 'k0'
+                return '(PyRt.Dict.contains %s %s)' % (fn.view_term(attr), kx), BOOL
             if not self.infer_only:
                 raise Unsupported(node, 'dict.%s(...) of the object inside an expression' % m)
+            if m in ('setdefault', '__getitem__') and fn.heap and self.infer_only:
+                return 'r0', t[2]
             if m == 'pop':
                 return 'r0', t[2]
             if m == 'popitem':
@@ -2960,10 +3185,13 @@ def generate(pid: str, repo: str):
     # e.g. the heap-mode classes of boltons.cacheutils do not share a file with ThresholdCounter)
     mods = {(spec['module'], spec.get('gen_file')) for spec in srctie_specs.SPECS.get(pid, [])}
     by_mod = {}
-    for p in sorted(srctie_specs.SPECS):       # a module file holds the functions of every property using it
-        for spec in srctie_specs.SPECS[p]:
+    # a module file holds the functions of every property using it; two properties may list the same definition
+    # (same `lean_name`, their own `tie_theorem`): it is emitted once, and the infos carry the requested property's entry
+    for p in [pid] + [q for q in sorted(srctie_specs.SPECS) if q != pid]:
+        for spec in srctie_specs.SPECS.get(p, []):
+            group = by_mod.get((spec['module'], spec.get('gen_file')), [])
             if (spec['module'], spec.get('gen_file')) in mods \
-                    and not any(spec is x for x in by_mod.get((spec['module'], spec.get('gen_file')), [])):
+                    and not any(spec is x or spec['lean_name'] == x['lean_name'] for x in group):
                 by_mod.setdefault((spec['module'], spec.get('gen_file')), []).append(spec)
     files, infos = {}, []
     for module_name, gen in sorted(by_mod, key=lambda x: (x[0], x[1] or '')):
